@@ -373,4 +373,94 @@ theorem instance_of_lub_r {m : ValidationMode} {v : Value} {τ1 τ2 τ : CedarTy
   | strict => exact lub_inst_r hi _ _ h
   | permissive => exact plub_inst_r hi _ _ h
 
+/-! ### distinct record keys are preserved; `reduce_to_least_upper_bound` -/
+
+theorem lubAttrsPerm_sublist {a1 : Attrs} : ∀ (a0 : Attrs),
+    ((lubAttrsPermissive .permissive a0 a1).map (·.1)).Sublist (a0.map (·.1))
+  | [] => by simp [lubAttrsPermissive]
+  | (k0, r0, t0) :: rest => by
+    simp only [lubAttrsPermissive]
+    have ih := lubAttrsPerm_sublist (a1 := a1) rest
+    cases hf : Attrs.find? a1 k0 with
+    | none => exact List.Sublist.cons _ ih
+    | some qt =>
+      obtain ⟨r1, t1⟩ := qt
+      simp only
+      cases hl : lub .permissive t0 t1 with
+      | none => exact List.Sublist.cons _ ih
+      | some t' => exact List.Sublist.cons_cons _ ih
+
+theorem plub_nd_aux : ∀ (n : Nat) (a b c : CedarType), sizeOf a < n → lub .permissive a b = some c →
+    ndTy a = true → ndTy b = true → ndTy c = true := by
+  intro n
+  induction n with
+  | zero => intro a b c hn; omega
+  | succ n ih =>
+    intro a b c hn h ha hb
+    cases plub_cases h
+    case sub_l hs => exact hb
+    case sub_r hs => exact ha
+    case bool => rfl
+    case anySet => rfl
+    case entity => rfl
+    case anyL => rfl
+    case anyR => rfl
+    case set e0 e1 t hl =>
+      simp only [ndTy] at ha hb ⊢
+      refine ih e0 e1 t ?_ hl ha hb
+      simp at hn; omega
+    case record a0 o0 a1 o1 =>
+      obtain ⟨hn0, ht0⟩ := ndTy_record ha
+      obtain ⟨_, ht1⟩ := ndTy_record hb
+      simp only [ndTy, Bool.and_eq_true, decide_eq_true_eq]
+      refine ⟨ndAttrs_iff.mpr ?_, List.Nodup.sublist (lubAttrsPerm_sublist a0) hn0⟩
+      intro k r t hm
+      obtain ⟨r0, t0, r1, t1, hm0, hf1, hlt, _⟩ := lubAttrsPerm_mem k r t hm
+      refine ih t0 t1 t ?_ hlt (ht0 k r0 t0 hm0) (ht1 k r1 t1 (find_mem hf1))
+      have := List.sizeOf_lt_of_mem hm0
+      simp at this hn
+      omega
+
+/-- the permissive least upper bound of two types with distinct record keys has distinct record keys -/
+theorem plub_nd {a b c : CedarType} (h : lub .permissive a b = some c) (ha : ndTy a = true) (hb : ndTy b = true) :
+    ndTy c = true :=
+  plub_nd_aux (sizeOf a + 1) a b c (Nat.lt_succ_self _) h ha hb
+
+theorem foldl_plub_none (ts : List CedarType) :
+    ts.foldl (fun acc t => acc.bind (fun a => lub .permissive a t)) none = none := by
+  induction ts with
+  | nil => rfl
+  | cons t ts ih => simpa using ih
+
+theorem foldl_plub_spec : ∀ (ts : List CedarType) (acc τ : CedarType),
+    ts.foldl (fun acc t => acc.bind (fun a => lub .permissive a t)) (some acc) = some τ →
+    ndTy acc = true → (∀ t, t ∈ ts → ndTy t = true) →
+    (∀ v, InstanceOfType v acc → InstanceOfType v τ) ∧ (∀ t, t ∈ ts → ∀ v, InstanceOfType v t → InstanceOfType v τ) ∧
+    ndTy τ = true
+  | [], acc, τ, h, ha, _ => by
+    simp only [List.foldl_nil, Option.some.injEq] at h
+    subst h
+    exact ⟨fun v hv => hv, fun t ht => (by cases ht), ha⟩
+  | t :: ts, acc, τ, h, ha, hall => by
+    simp only [List.foldl_cons, Option.bind_some] at h
+    cases hl : lub .permissive acc t with
+    | none => rw [hl, foldl_plub_none] at h; cases h
+    | some acc' =>
+      rw [hl] at h
+      obtain ⟨h1, h2, h3⟩ := foldl_plub_spec ts acc' τ h (plub_nd hl ha (hall t List.mem_cons_self))
+        (fun t' ht' => hall t' (List.mem_cons_of_mem _ ht'))
+      refine ⟨fun v hv => h1 v (plub_inst_l hv _ _ ha hl), ?_, h3⟩
+      intro t' ht' v hv
+      rcases List.mem_cons.mp ht' with rfl | ht'
+      · exact h1 v (plub_inst_r hv _ _ hl)
+      · exact h2 t' ht' v hv
+
+/-- `lubAll` in permissive mode (set literals — also the empty one, typed `Set<Never>` —, tag types of an entity-type
+union): every element type is below the result -/
+theorem lubAll_perm_spec {ts : List CedarType} {τ : CedarType} (h : lubAll .permissive ts = some τ)
+    (hall : ∀ t, t ∈ ts → ndTy t = true) :
+    (∀ t, t ∈ ts → ∀ v, InstanceOfType v t → InstanceOfType v τ) ∧ ndTy τ = true := by
+  unfold lubAll at h
+  exact (foldl_plub_spec ts .never τ h rfl hall).2
+
 end Cedar.C03
